@@ -290,6 +290,12 @@ func replayOne(rf *vstat.ReplayFile) string {
 	if rf.Part == "reload" {
 		return replayRich(rf.Scenario)
 	}
+	if rf.Part == "alias" {
+		return replayAlias(rf.Scenario)
+	}
+	if rf.Part == "overlap" {
+		return replayOverlap(rf.Scenario)
+	}
 	switch rf.Kind {
 	case "rapid", "seq":
 		var sc Scenario
